@@ -190,13 +190,13 @@ func createFilesInTar(info *nfpm.Info, tw *tar.Writer) ([]MtreeEntry, int64, err
 			entries = append(entries, MtreeEntry{
 				Destination: content.Destination,
 				Time:        content.ModTime().Unix(),
-				Mode:        int64(content.Mode()),
+				Mode:        content.UnixMode(),
 				Type:        files.TypeDir,
 			})
 
 			if err := tw.WriteHeader(&tar.Header{
 				Name:     content.Destination,
-				Mode:     int64(content.Mode()),
+				Mode:     content.UnixMode(),
 				Typeflag: tar.TypeDir,
 				ModTime:  content.ModTime(),
 				Uname:    content.FileInfo.Owner,
@@ -230,7 +230,7 @@ func createFilesInTar(info *nfpm.Info, tw *tar.Writer) ([]MtreeEntry, int64, err
 
 			header := &tar.Header{
 				Name:     content.Destination,
-				Mode:     int64(content.Mode()),
+				Mode:     content.UnixMode(),
 				Typeflag: tar.TypeReg,
 				Size:     content.Size(),
 				ModTime:  content.ModTime(),
@@ -239,7 +239,7 @@ func createFilesInTar(info *nfpm.Info, tw *tar.Writer) ([]MtreeEntry, int64, err
 			}
 
 			if content.FileInfo != nil && content.Mode() != 0 {
-				header.Mode = int64(content.Mode())
+				header.Mode = content.UnixMode()
 			}
 
 			if content.FileInfo != nil && !content.ModTime().IsZero() {
@@ -268,7 +268,7 @@ func createFilesInTar(info *nfpm.Info, tw *tar.Writer) ([]MtreeEntry, int64, err
 			entries = append(entries, MtreeEntry{
 				Destination: content.Destination,
 				Time:        content.ModTime().Unix(),
-				Mode:        int64(content.Mode()),
+				Mode:        content.UnixMode(),
 				Size:        content.Size(),
 				Type:        content.Type,
 				MD5:         md5Hash.Sum(nil),
